@@ -339,6 +339,12 @@ func parsePossibilityNumber(input *input, version *VersionRelation) error {
 			return errors.New("Oh no. Reached EOF before Number finished")
 		case ')':
 			return nil
+		case ' ', '\t', '\r', '\n':
+			eatWhitespace(input)
+			if input.Peek() != ')' {
+				return errors.New("Whitespace inside a version Number")
+			}
+			return nil
 		}
 		version.Number += string(input.Next())
 	}
@@ -350,6 +356,7 @@ func parsePossibilityArchs(input *input, possi *Possibility) error {
 	input.Next() /* Assert ch == '[' */
 
 	for {
+		eatWhitespace(input)
 		peek := input.Peek()
 		switch peek {
 		case 0:
@@ -413,6 +420,7 @@ func parsePossibilityStageSet(input *input, possi *Possibility) error {
 
 	stageSet := StageSet{}
 	for {
+		eatWhitespace(input)
 		peek := input.Peek()
 		switch peek {
 		case 0:
